@@ -99,7 +99,21 @@ CHECKS["C17"] = ("model_checking", "5/C17",
          "salts over all 24 bits, iteration counts; setkey/encrypt(_r) traces with noise in the ignored bits, interleaved with crypt/gensalt calls, "
          "are validated with the key tracked per object and for the static area.",
          "TLC evaluation of a bit-level DES specification on recorded traces", "Des.tla's tables are FIPS 46-3's")
-for p in ["C08", "C19", "C20"]:
+CHECKS["C19"] = ("model_checking", "5/C19",
+         "Config.tla: TLC takes each of the 65535 non-empty selections as an initial state (edge selections in quick) and checks DefaultIsStrongestEnabled, "
+         "DisabledUnreachable, DesPair, EnabledUnchanged, NoDefault on Settings/Gensalt restricted to E. On the code: selections (singletons, leave-one-out, "
+         "named groups, random subsets; 10 in quick) are built with the repository's generators and the same request script (every method's settings, "
+         "prefixes, checksalt, gensalt incl. NULL, crypt_preferred_method) is judged by the trace specifications instantiated with E; results of enabled "
+         "methods must equal the full build's (learned graph); a build failure is a violation.",
+         "TLC over all selections + per-configuration builds judged by the E-parameterised trace specifications",
+         "configurations are produced by the repository's generator scripts with configure's obsolete-API rule mirrored, not by re-running configure")
+CHECKS["C20"] = ("model_checking", "5/C20",
+         "Abi.tla holds the released interface (21 (symbol, version) pairs with default-ness, alias classes, struct layout, constants) and judges the facts "
+         "dumped from the fresh build (readelf, a probe compiled against the tree's generated header). Behavioural half: TLC-generated behaviours, DES API "
+         "sequences on recycled objects, checksalt and the compat gensalt aliases are replayed by an old-binary client (released layout hard-coded, every "
+         "symbol bound with dlvsym at GLIBC_2.2.5 / XCRYPT_2.0 / default) and judged by the same trace specifications.",
+         "TLC judgement of dumped ABI facts + trace validation through every released version node", "the private build uses the repository's generated version script")
+for p in ["C08"]:
     NA.setdefault(p, "check under construction in this round (see DESIGN.md section 9); not claimed until its machinery is committed")
 
 
